@@ -227,6 +227,33 @@ EnvPlan GeneratePlan(uint64_t seed, int size_class_max,
     if (w.n > 600) w.n = 600;
     p.geoms.push_back(w);
   }
+  // A sixth of the plans use geometry that compresses to almost nothing
+  // (regular lattices, identical points, position only): the streams in which
+  // "how many bytes are left" is smallest relative to the declared counts.
+  const bool compressible = r.Fork("compressible").Chance(1, 6);
+  if (compressible) {
+    for (size_t i = 0; i < p.geoms.size(); ++i) {
+      Workload &w = p.geoms[i];
+      Rng rc = r.Fork(500 + i);
+      w.jit = 0;
+      w.n = static_cast<int>(rc.Range(100, 600));
+      w.atts.resize(rc.Chance(1, 2) ? 1 : std::min<size_t>(w.atts.size(), 2));
+      w.atts[0].dt = draco::DT_FLOAT32;
+      w.meta = 0;
+      w.qb[0] = static_cast<int>(rc.Range(8, 14));
+      w.xq[0] = 0;
+      w.expert = 0;
+      if (w.kind == 0) {
+        w.topo = 0;
+        w.method = rc.Chance(2, 3) ? 0 : 1;
+        w.compress_conn = 1;
+      } else {
+        w.topo = 3 + static_cast<int>(rc.Below(2));
+        w.method = rc.Chance(2, 3) ? 0 : 1;
+      }
+      w.espeed = w.dspeed = static_cast<int>(rc.Range(0, 9));
+    }
+  }
   // Explicit quantization promises values inside the caller's box: the
   // geometries of one plan are all built for the same set of boxed attribute
   // types, and option sets may request a box only for those types.
@@ -403,8 +430,10 @@ EnvPlan GeneratePlan(uint64_t seed, int size_class_max,
         // half-way; the object is used again afterwards.
         std::vector<const std::vector<uint8_t> *> none;
         op.faults = RandomFaultPlan(ro.Fork("fault"), 300, none);
-      } else if (ro.Chance(1, 3)) {
-        op.trail = static_cast<int>(ro.Range(1, 40));
+      } else if (ro.Chance(1, 3) || (compressible && ro.Chance(1, 2))) {
+        // A few bytes, or (a third of the time) a lot of them.
+        op.trail = ro.Chance(1, 3) ? static_cast<int>(ro.Range(256, 8192))
+                                   : static_cast<int>(ro.Range(1, 40));
         op.trail_seed = ro.Next() >> 2;
       }
     }
@@ -1016,6 +1045,9 @@ uint64_t RunPlan(const EnvPlan &p, const std::string &repo,
                              op.kind == OP_EXPERT_SETOPTS;
       if (is_setter) continue;
       const char *cls = e == 0 ? "history_dependence" : "environment_dependence";
+      // A decode with bytes appended is compared with the decode of the bare
+      // stream: a difference there is a dependence on trailing bytes.
+      if (op.trail > 0 && e == 0) cls = "trailing_bytes_dependence";
       if (r.ok != x.ok || r.code != x.code) {
         add(cls, "status",
             "status " + std::to_string(r.ok) + "/" + std::to_string(r.code) +
